@@ -210,6 +210,10 @@ def build_cases(tier, seed):
     if tier == "thorough":
         for w, st in (("denver_downtown/denver_demo.yaml", 300), ("denver_downtown/denver_demo_fleets.yaml", 300)):
             pass  # shipped scenarios use ISO end times in the yaml; the generated ones cover the same code paths
+    # time stamps in inputs and logs are UTC whatever the host's time zone: every third case runs in a process set to another zone
+    for k, c in enumerate(cases):
+        if k % 3 == 2:
+            c["env"] = {"TZ": ["MST7", "JST-9", "CET-1CEST,M3.5.0,M10.5.0/3"][(k // 3) % 3]}
     return cases
 
 
